@@ -138,7 +138,7 @@ Proof.
     apply epoch_ok_inherit; [exact Hse|]. destruct (ci_ok _ c1 Hc1 _ Hin) as [_ [_ [Hw _]]]. rewrite I6 in Hw. exact Hw. }
   assert (Hav : forall c0, r_verid (as_stored c0 (new_region T)) = d_verid T).
   { intros c0. destruct (as_stored_range c0 (new_region T)) as [_ [_ [A [B C]]]]. unfold r_verid, d_verid. rewrite A, B, C. reflexivity. }
-  unfold find_region_by_key. unfold load_state in Hl.
+  unfold find_region_by_key, load_for. cbn [andb]. unfold load_state in Hl.
   destruct (search (c_sorted c) k false) as [x|] eqn:Es.
   - destruct (r_expired x) eqn:Ee.
     + rewrite (load_T 0 Hbud). destruct (Hins c Hc) as [c1 [r1 [Hi H]]]. rewrite Hi. cbn [snd]. eexists c1, r1, _. split; [reflexivity|]. split; [apply Hav|exact H].
